@@ -4662,10 +4662,10 @@ impl BytecodeVM {
                         // Get __initializers__ array from this (the context object)
                         if let JsValue::Object(ctx_obj) = this {
                             let init_key = interp.intern("__initializers__");
-                            if let Some(JsValue::Object(arr)) = ctx_obj
+                            let initializers = ctx_obj
                                 .borrow()
-                                .get_property(&PropertyKey::String(init_key))
-                            {
+                                .get_property(&PropertyKey::String(init_key));
+                            if let Some(JsValue::Object(arr)) = initializers {
                                 // Push callback to the array using array_elements_mut
                                 let mut arr_ref = arr.borrow_mut();
                                 if let Some(elements) = arr_ref.array_elements_mut() {
